@@ -366,7 +366,8 @@ PROPS = {
         "run_fn": "run_c05j",
         "pinned_theorems": ["C05_presented", "C05_rejected", "C05_one_retry", "C05_redirect_rejected",
                             "C05_recorded_once", "C05_recorded_value", "C05_text_hash_refuted",
-                            "C05_registry_presents_manifest_checksum", "C05_registry_locker_told_only_new"],
+                            "C05_registry_presents_manifest_checksum", "C05_registry_locker_told_only_new",
+                            "C05_registry_rejected_never_admitted"],
         "rule": ("C01 worlds, mostly remote, where 12% of remote sources carry a UTF-8 BOM or are served as UTF-16 "
                  "with a charset header and 15% of remote specifiers serve different bytes under CacheSetting::Reload; "
                  "lockfile absent (15%) or holding entries for ~45% of the remote specifiers (incl. redirecting, missing "
@@ -382,7 +383,7 @@ PROPS = {
             "the per-specifier judge of the B1 stream applies to loaders that report redirects as LoadResponse::Redirect (modules answered under another final specifier are covered by the C01/C03 streams and the registry stream)",
             "known finding F-C05a is reported as KNOWN-FINDING",
         ],
-        "partial": ["registry half: presentation of manifest checksums is proved (C05_registry_presents_manifest_checksum); the locker is told a package-manifest checksum only for versions the lockfile did not know and with the manifest's own checksum (C05_registry_locker_told_only_new); presentation of the lockfile's package-manifest checksum and the integrity error on a mismatch are decided per case by the correspondence"],
+        "partial": ["registry half: presentation of manifest checksums is proved (C05_registry_presents_manifest_checksum), and that every admitted source of a package file has the manifest's checksum (C05_registry_rejected_never_admitted, for loaders that report the requested specifier as final); the locker is told a package-manifest checksum only for versions the lockfile did not know and with the manifest's own checksum (C05_registry_locker_told_only_new); presentation of the lockfile's package-manifest checksum and the integrity error on a mismatch are decided per case by the correspondence"],
     },
     "C16": {
         "harness": "c16",
